@@ -107,6 +107,14 @@ def main(ctx, replay=None):
                               {"a": aa, "b": ab, "eq": eq, "expected_eq": same}, {"fn": "c_", "clause": "eq_hash"})
     ctx.cov["evaluations"] += npairs
     ctx.cov["pairs_compared"] = npairs
+    # 'hash equal if and only if related': the 21 canonical keys carry 21 different hashes
+    hashes = {}
+    for kv, g, _a in accepted:
+        hashes.setdefault(kv, hash(g))
+    if len(set(hashes.values())) != len(hashes):
+        clash = sorted(k for k, h in hashes.items() if list(hashes.values()).count(h) > 1)
+        ctx.violation(f"the keys {clash} are unrelated and hash equal ({len(set(hashes.values()))} different hashes for {len(hashes)} keys)", {"keys": [list(k) for k in clash]},
+                      {"fn": "c_", "clause": "hash_distinct"})
     # keys usable as dict keys: 21 distinct
     if len({g for _, g, _ in accepted}) != table["nkeys"]:
         ctx.violation(f"accepted spellings hash into {len({g for _, g, _ in accepted})} distinct keys, expected 21", {},
